@@ -2,7 +2,36 @@
 import fcntl, glob, importlib.util, os, re, subprocess, sys, tempfile, time
 
 VERIF = os.path.dirname(os.path.dirname(os.path.abspath(__file__)))
-LEAN_DIR = os.path.join(VERIF, "lean")
+LEAN_SRC = os.path.join(VERIF, "lean")
+
+
+def _lean_dir():
+    """The Lean project a run works in.  Generated/*.lean are derived from the source tree being checked, so a run
+    against another tree (VERIF_REPO=<worktree>: seeded changes, fix development) gets its own private copy of the
+    project (incl. the build cache) under the scratch area; runs against /repo use /verif/lean itself."""
+    repo = os.path.realpath(os.environ.get("VERIF_REPO", "/repo"))
+    if repo == "/repo":
+        return LEAN_SRC
+    import hashlib
+    scratch = os.environ.get("VERIF_SCRATCH", "/var/tmp/stepcode-verif")
+    d = os.path.join(scratch, "lean-" + hashlib.sha1(repo.encode()).hexdigest()[:12])
+    os.makedirs(d, exist_ok=True)
+    lock = open(os.path.join(scratch, ".lean-copy.lock"), "w")
+    fcntl.flock(lock, fcntl.LOCK_EX)
+    try:
+        # sources always from /verif/lean (Generated/ is rewritten by regenerate() afterwards); keep the copy's own build cache
+        first = not os.path.isdir(os.path.join(d, ".lake"))
+        cmd = ["rsync", "-a", "--delete", "--exclude", ".lake/", "--exclude", "StepModel/Generated/", LEAN_SRC + "/", d + "/"]
+        subprocess.run(cmd, check=True)
+        if first:
+            subprocess.run(["rsync", "-a", os.path.join(LEAN_SRC, ".lake"), d + "/"], check=False)
+            subprocess.run(["rsync", "-a", os.path.join(LEAN_SRC, "StepModel", "Generated"), os.path.join(d, "StepModel") + "/"], check=False)
+    finally:
+        fcntl.flock(lock, fcntl.LOCK_UN); lock.close()
+    return d
+
+
+LEAN_DIR = _lean_dir()
 GEN_DIR = os.path.join(LEAN_DIR, "StepModel", "Generated")
 EXTRACT_DIR = os.path.join(VERIF, "tools", "extract.d")
 ALLOWED_AXIOMS = {"propext", "Classical.choice", "Quot.sound"}
